@@ -18,11 +18,11 @@ type Clause struct {
 
 // AssertClause: an intermediate assertion placed after a statement of the body
 type AssertClause struct {
-	Label string
-	After string // fragment of the source text of the statement after (or before) which the assertion holds
+	Label  string
+	After  string // fragment of the source text of the statement after (or before) which the assertion holds
 	Before bool
 	Each   bool // before-each: at every innermost statement containing the fragment
-	Text  string
+	Text   string
 }
 
 type LoopContract struct {
@@ -53,16 +53,16 @@ type Contract struct {
 	TemplRecv     string // receiver type name
 	TemplPattern  string // function name glob
 	Except        []string
-	AssumedEns    []Clause // free postconditions: used at call sites, not proved for the unit (listed in the evidence)
-	Assumes       []Clause // free preconditions: assumed for the body, not required of callers (listed in the evidence)
-	AssumePre     []string // callees whose preconditions are assumed, not proved, at this function's call sites (listed in the evidence)
-	AssumeUnreach []string // explicit panic sites (by a fragment of their source text) assumed unreachable; listed in the evidence
-	GhostSets     []string // "name = expr": ghost counter updates performed by a call to this function
-	DynPreserves  []string // places assumed unchanged by calls through function values made by this function (listed in the evidence)
-	Lemmas        []string // ghost lemma calls instantiated before the postconditions are checked
+	AssumedEns    []Clause       // free postconditions: used at call sites, not proved for the unit (listed in the evidence)
+	Assumes       []Clause       // free preconditions: assumed for the body, not required of callers (listed in the evidence)
+	AssumePre     []string       // callees whose preconditions are assumed, not proved, at this function's call sites (listed in the evidence)
+	AssumeUnreach []string       // explicit panic sites (by a fragment of their source text) assumed unreachable; listed in the evidence
+	GhostSets     []string       // "name = expr": ghost counter updates performed by a call to this function
+	DynPreserves  []string       // places assumed unchanged by calls through function values made by this function (listed in the evidence)
+	Lemmas        []string       // ghost lemma calls instantiated before the postconditions are checked
 	Asserts       []AssertClause // "assert @label after <source fragment> :: expr": proof obligation after the first statement containing the fragment
-	LoopInv       []Clause // default invariants for every for-loop without own contract
-	LoopDec       []string // default decreases for every for-loop without own contract
+	LoopInv       []Clause       // default invariants for every for-loop without own contract
+	LoopDec       []string       // default decreases for every for-loop without own contract
 	FromTemplate  bool
 }
 
